@@ -84,6 +84,16 @@ def c_copy(v):
     return onp.array(v, order="C", copy=True) if isinstance(v, onp.ndarray) else v
 
 
+def c_map(v, f):
+    if isinstance(v, dict):
+        return {k: c_map(t, f) for k, t in v.items()}
+    if isinstance(v, list):
+        return [c_map(t, f) for t in v]
+    if isinstance(v, tuple):
+        return tuple(c_map(t, f) for t in v)
+    return f(v)
+
+
 def c_reorder(v):
     """The same value with every dict rebuilt in the reverse insertion order (equal as a Python value)."""
     if isinstance(v, dict):
@@ -268,6 +278,11 @@ def main():
                 and bool(onp.all(flatten(c_copy(x))[0] == fx)) and veq(unflatten(fx), c_copy(x)) \
                 and bool(onp.all(flatten(c_reorder(x))[0] == fx)) and veq(unflatten(flatten(c_reorder(y))[0]), y) \
                 and bool(onp.all(flatten(vspace(x).add(x, c_reorder(y)))[0] == fx + flatten(c_reorder(y))[0]))
+            # the same layout with leaves of another kind / precision, then the first one again: each unflatten belongs to its own value
+            for conv in (lambda t: t * (1.0 + 2.0j), lambda t: onp.asarray(t, dtype=onp.float32) if isinstance(t, onp.ndarray) else t, lambda t: t):
+                xk = c_map(x, conv)
+                fk, unk = flatten(xk)
+                ok = ok and veq(unk(fk), xk) and bool(onp.all(flatten(unk(fk))[0] == fk))
             if not ok:
                 out["oracle_bad"].append({"oracle": "flatten", "x": enc(x), "site": {"oracle": "flatten"}})
         except Exception as ex:
